@@ -54,6 +54,7 @@ pub struct WorkerOut {
     pub skipped: u64,
     pub found: Vec<(u64, u64, Found)>,
     pub found_total: u64,
+    pub found_per_class: BTreeMap<String, u64>,
     pub harness: Vec<String>,
     pub nontrivial: Vec<u64>,
     pub stats: BTreeMap<String, u64>,
@@ -73,6 +74,7 @@ pub fn worker_loop(
 ) -> WorkerOut {
     let mut out = WorkerOut { worker, ..Default::default() };
     let mut nontrivial: BTreeSet<u64> = BTreeSet::new();
+    let mut per_class: BTreeMap<String, u64> = BTreeMap::new();
     let mut i = worker;
     let tag = format!("{}-{}", p.id(), if thorough { "thorough" } else { "quick" });
     while i < total {
@@ -100,7 +102,10 @@ pub fn worker_loop(
         }
         for f in r.found {
             out.found_total += 1;
-            if out.found.len() < 40 {
+            // keep a few representatives of every class (never drop a class)
+            let c = per_class.entry(f.class.clone()).or_insert(0u64);
+            *c += 1;
+            if *c <= 4 {
                 out.found.push((i, seed, f));
             }
         }
@@ -112,6 +117,7 @@ pub fn worker_loop(
         i += nworkers;
     }
     out.nontrivial = nontrivial.into_iter().collect();
+    out.found_per_class = per_class;
     out
 }
 
